@@ -192,38 +192,62 @@ def gen_b(rng):
     ns = rng.randint(2, 4)
     for k in range(1, ns + 1):
         toks += ["S", str(k), "I", str(rng.choice([0, 0, 1])), str(k)]
-    ops = []
-    for _ in range(rng.randint(6, 18)):
-        k = rng.randint(1, ns)
+    def aaa(k):
+        st = "-"
+        c = rng.random()
+        if c < 0.3:
+            p = rng.choice(pools)
+            st = str(rng.randint(p[1], p[2] + 1))
+        elif c < 0.36:
+            st = str(V4BASE + 200 * 256 + 200)  # in the provider's /16, in no pool
+        ov = str(rng.choice(pools)[0]) if rng.random() < 0.15 else "-"
+        return "BA %d %d %s %s" % (k, rng.choice([0, 0, 1]), st, ov)
+
+    def ending(k):
         r = rng.random()
-        if r < 0.25:
-            ops.append("BD %d" % k)
-        elif r < 0.45:
-            ops.append("BQ %d" % k)
-        elif r < 0.70:
-            st = "-"
-            c = rng.random()
-            if c < 0.25:
-                p = rng.choice(pools)
-                st = str(rng.randint(p[1], p[2] + 1))
-            elif c < 0.32:
-                st = str(V4BASE + 200 * 256 + 200)  # in the provider's /16, in no pool
-            ov = str(rng.choice(pools)[0]) if rng.random() < 0.15 else "-"
-            ops.append("BA %d %d %s %s" % (k, rng.choice([0, 0, 1]), st, ov))
-        elif r < 0.75:
-            ops.append("BJ %d" % k)
-        elif r < 0.87:
-            if queue:
-                ops.append("BC" if rng.random() < 0.7 else "BC rev")
-            ops.append("BR %d %s" % (k, "self" if rng.random() < 0.8 else str(V4BASE + 999)))
-        elif r < 0.94:
-            if queue:
-                ops.append("BC")
-            ops.append("BT %d" % k)
-        elif r < 0.97:
-            ops.append("BX %d" % k)
-        else:
-            ops.append("BC" if rng.random() < 0.6 else "BC rev")
+        pre = ["BC" if rng.random() < 0.7 else "BC rev"] if queue else []
+        if r < 0.5:
+            return pre + ["BR %d %s" % (k, "self" if rng.random() < 0.85 else str(V4BASE + 999))]
+        if r < 0.8:
+            return pre + ["BT %d" % k]
+        if r < 0.9:
+            return ["BX %d" % k]
+        return []
+
+    # one life-cycle script per subscriber (sometimes two: re-connect), randomly interleaved, plus noise events
+    scripts = []
+    for k in range(1, ns + 1):
+        for _ in range(rng.choice([1, 1, 2])):
+            sc = []
+            first = rng.random()
+            if first < 0.6:
+                sc += ["BD %d" % k]
+            elif first < 0.8:
+                sc += ["BD %d" % k, "BQ %d" % k]     # REQUEST arrives before the AAA answer
+            else:
+                sc += ["BQ %d" % k]
+            sc += ["BJ %d" % k] if rng.random() < 0.08 else [aaa(k)]
+            if queue and rng.random() < 0.6:
+                sc += ["BD %d" % k] if rng.random() < 0.4 else []
+                sc += ["BC"]
+            if rng.random() < 0.85:
+                sc += ["BQ %d" % k]
+            if rng.random() < 0.2:
+                sc += ["BD %d" % k]
+            sc += ending(k)
+            scripts.append(sc)
+    ops = []
+    # scripts of one subscriber stay in order; different subscribers interleave
+    bysub = {}
+    for sc in scripts:
+        bysub.setdefault(sc[0].split()[1], []).extend(sc)
+    queues = list(bysub.values())
+    while any(queues):
+        q = rng.choice([x for x in queues if x])
+        ops.append(q.pop(0))
+        if rng.random() < 0.08:
+            k = rng.randint(1, ns)
+            ops.append(rng.choice(["BD %d" % k, "BQ %d" % k, "BX %d" % k, "BC", "BJ %d" % k]))
     return " ".join(toks) + " ; " + " ; ".join(ops)
 
 
@@ -365,6 +389,8 @@ def classify_b(case, impl, model):
     told, gone = {}, set()
     for k, (o, seg) in enumerate(zip(case_ops(case), segs(impl)[1:]), start=1):
         head = seg.split(" | ")[0].split()
+        if o[0] == "BC":
+            continue
         if len(o) > 1 and "rec=gone" in head:
             gone.add(o[1])
             told.pop(o[1], None)
@@ -477,6 +503,16 @@ def signature(case, impl, models):
 def shrink(case):
     parts = segs(case)
     cfg, ops = parts[0], parts[1:]
+    if case.startswith("B "):
+        # stage B: keep the event discipline (completions before release): only cut the tail or drop one subscriber
+        for n in range(len(ops) - 1, 0, -1):
+            yield " ; ".join([cfg] + ops[:n])
+        subs = sorted({o.split()[1] for o in ops if len(o.split()) > 1 and o.split()[0] != "BC"})
+        for k in subs:
+            rest = [o for o in ops if not (len(o.split()) > 1 and o.split()[0] != "BC" and o.split()[1] == k)]
+            if rest and len(rest) < len(ops):
+                yield " ; ".join([cfg] + rest)
+        return
     n = len(ops)
     if n > 1:
         yield " ; ".join([cfg] + ops[:n // 2])
